@@ -50,7 +50,10 @@ def run_case(world_pack, cfg, case, seed, pid=PID):
             a.send(mkbuf(int(plen), seed, 77, "bytes"))
             w.advance(2 * link.MS)
             if not rb.rx_fifo:
-                raise HarnessError("pre-history payload not received")
+                # the history's own payload is an instance of the property (a payload handed to send() on this compatible
+                # link); the set-up is deterministic and delivers it on the unchanged tree
+                v("count", int(plen), "the payload of the receiver-side history (%s bytes, send()) did not reach the peer's RX FIFO" % plen)
+                return viol, "%s:pre-history:undelivered" % mode, []
         if kind == "any+flush":
             b.any()
             b.flush_rx()
